@@ -480,6 +480,59 @@ func run(c *mon.Ctx) {
 			checkPAT(c, "stream-with-the-same-header-as-the-previous-one", pat3, err3, &q, tail(in3, 600))
 		}
 	})
+	// one PAT read by several goroutines at once (its accessors and IsPMT only read it)
+	c.Stream("concurrent-readers-of-one-pat", c.N(8, 200), func(i int, r *gen.Rand) {
+		c.ConcurrentReaders("PAT", c.N(300, 300), r, func(q *gen.Rand) func() string {
+			p := genPAT(q, 42)
+			var pat psi.PAT
+			var err error
+			if q.Bool() {
+				pat, err = psi.NewPAT(append([]byte{0}, p.Section()...))
+			} else {
+				pk := ref.PaddedPacket(0, q.Intn(16), true, append([]byte{0}, p.Section()...))
+				pat, err = psi.ReadPAT(bytes.NewReader(pk[:]))
+			}
+			if err != nil || pat == nil {
+				return func() string { return fmt.Sprintf("a well-formed PAT was rejected: %v", err) }
+			}
+			want := map[int]int{}
+			for _, e := range p.Entries {
+				if e.Program != 0 {
+					want[int(e.Program)] = e.PID
+				}
+			}
+			probe := ref.PaddedPacket(0x1fff, 0, false, nil)
+			if len(p.Entries) > 0 {
+				probe = ref.PaddedPacket(p.Entries[0].PID, 3, false, []byte{1, 2, 3})
+			}
+			pp := packet.Packet(probe)
+			wantPMT := false
+			for _, pid := range want {
+				if pid == pp.PID() {
+					wantPMT = true
+				}
+			}
+			return func() string {
+				if n := pat.NumPrograms(); n != len(p.Entries) {
+					return fmt.Sprintf("NumPrograms() = %d, the section has %d entries", n, len(p.Entries))
+				}
+				m := pat.ProgramMap()
+				if len(m) != len(want) {
+					return fmt.Sprintf("ProgramMap() has %d entries, the section has %d programs", len(m), len(want))
+				}
+				for k, v := range want {
+					if m[k] != v {
+						return fmt.Sprintf("ProgramMap()[%d] = %#x, encoded %#x", k, m[k], v)
+					}
+				}
+				if g, err := psi.IsPMT(&pp, pat); err != nil || g != wantPMT {
+					return fmt.Sprintf("IsPMT(packet on PID %#x) = %v, %v; want %v", pp.PID(), g, err, wantPMT)
+				}
+				return ""
+			}
+		})
+		c.Class("concurrent-readers-of-one-pat")
+	})
 	// nil PAT is an error
 	var pk packet.Packet
 	if g, err := psi.IsPMT(&pk, nil); err != gots.ErrNilPAT || g {
